@@ -4,7 +4,7 @@ open Lean
 namespace SnootyVerif.Drv.C14
 open SnootyVerif.Drv SnootyVerif.Diag
 
-/-- a diagnostic on the wire: {"c": class name, "l": line, "s": severity, "t": tag} -/
+/-- a diagnostic on the wire: {"c": class name, "l": line, "s": severity, "t": object identity} -/
 def getD (j : Json) : Except String D := do
   pure ⟨← str j "c", ← nat j "l", ← nat j "s", ← nat j "t"⟩
 
@@ -13,7 +13,7 @@ def getDs (j : Json) : Except String (List D) := do
   a.toList.mapM getD
 
 def putD (d : D) : Json :=
-  Json.mkObj [("c", Json.str d.cls), ("l", Json.num d.line), ("s", Json.num d.sev), ("t", Json.num d.tag)]
+  Json.mkObj [("c", Json.str d.cls), ("l", Json.num d.line), ("s", Json.num d.sev), ("t", Json.num d.oid)]
 
 def putDs (ds : List D) : Json := Json.arr (ds.map putD).toArray
 
@@ -44,7 +44,8 @@ def merge (j : Json) : Except String Json := do
   -- orphan arrives as the sequence of set_orphan_diagnostics calls: a dict assignment each
   let orphanDict := orphan.foldl (fun acc e => dictSet acc e.1 e.2) []
   let m := mergeDiagnostics (pagesStore parsed) orphanDict (allKeys others) others
-  pure (Json.mkObj [("merged", putMap m), ("filtered", putMap (filtered S m))])
+  let old := mergeDiagnosticsOld (pagesStore parsed) orphanDict (allKeys others) others
+  pure (Json.mkObj [("merged", putMap m), ("filtered", putMap (filtered S m)), ("old", putMap old)])
 
 def filter (j : Json) : Except String Json := do
   pure (Json.mkObj [("ds", putDs (filterDiagnostics (← strs j "silence") (← getDs (← field j "ds"))))])
